@@ -479,7 +479,9 @@ class PreTranslator(ASTTranslator):
 extractors_cache = {}
 
 def create_extractors(code_key, tree, globals, locals, special_functions, const_functions, outer_names=()):
-    result = extractors_cache.get(code_key)
+    # one lambda (or its text) may serve as a whole query, Entity.select(f), and as a filter of another query: two different trees
+    cache_key = code_key, tree.__class__
+    result = extractors_cache.get(cache_key)
     if not result:
         pretranslator = PreTranslator(tree, globals, locals, special_functions, const_functions, outer_names)
         extractors = {}
@@ -494,5 +496,5 @@ def create_extractors(code_key, tree, globals, locals, special_functions, const_
                 def extractor(globals, locals, code=code):
                     return eval(code, globals, locals)
             extractors[src] = extractor
-        result = extractors_cache[code_key] = tree, extractors
+        result = extractors_cache[cache_key] = tree, extractors
     return result
